@@ -63,7 +63,12 @@ class HWorld(object):
         # close: the labels of argument a are distinct floats that differ by a relative 4e-6 only
         close = self.close_labels = bool(variant.get("close_coords"))
 
+        # late_float: the labels of argument a are 1, 1.5, 2.5: an integer label first, non-integral ones later
+        late = self.late_float = bool(variant.get("late_float")) and not close
+
         def ai(a):
+            if late:
+                return 1 if a == 1 else int(a + 0.5)
             return int(round((a - 1000.0) / 0.004)) if close else a
 
         def fn(a, b, c=7):
@@ -91,6 +96,8 @@ class HWorld(object):
             self.h = self.xyz.Harvester(self.runner, self.data_name, engine=self.engine)
 
     def aval(self, a):
+        if self.late_float:
+            return 1 if a == 1 else a - 0.5
         return 1000.0 + 0.004 * a if self.close_labels else a
 
     def ekw(self):
